@@ -66,11 +66,18 @@ def _filter_log(text):
     return "\n".join(out)
 
 
+def qualified(h):
+    """Fully qualified harness name (`--exact`): a substring filter would also select e.g. `<h>_std`."""
+    from . import registry
+    m = registry.K[h]["module"] if h in registry.K else "dedupe"
+    return "%s::verif_%s::%s" % (m, m, h)
+
+
 def cargo_kani(root, harnesses, extra, timeout, jobs=None):
     cmd = ["prlimit", "--as=%d" % MEM_CAP, "cargo", "kani"] + KANI_FLAGS
     for h in harnesses:
-        cmd += ["--harness", h]
-    cmd += ["--exact"] if False else []
+        cmd += ["--harness", qualified(h)]
+    cmd += ["--exact"]
     if jobs:
         cmd += ["-j", str(jobs), "--output-format", "terse"]
     cmd += extra
